@@ -132,6 +132,31 @@ def _case(args):
                     lv, nd = k.split('/', 1)
                     li = nm.inv_level(lv, hier)
                     rec['missing'].append([li, nm.inv_node(li, nd)])
+        # the command-line runner (cli/marker_cache_from_csv_dir.py, through harness/argshim.py) on the same directory: the
+        # same table / the same refusal; a drop_level that names no level of the taxonomy changes nothing
+        rec['cli_issue'] = ''
+        if case['seed'] % 3 == 0:
+            import h5py
+            from harness import argshim
+            argshim.install()
+            from cell_type_mapper.cli.marker_cache_from_csv_dir import MarkerCacheRunner
+            with h5py.File(d / 'stats.h5', 'w') as f:
+                f.create_dataset('taxonomy_tree', data=json.dumps(data).encode())
+            try:
+                with warnings.catch_warnings():
+                    warnings.simplefilter('ignore')
+                    MarkerCacheRunner(args=[], input_data={
+                        'marker_dir': str(d / 'csv'), 'precomputed_file_path': str(d / 'stats.h5'),
+                        'output_path': str(d / 'lookup.json'), 'map_to_ensembl': False,
+                        'drop_level': rng.choice([None, 'no_such_level'])}).run()
+                got = {k: v for k, v in json.load(open(d / 'lookup.json')).items() if k != 'metadata'}
+                if not rec['ok']:
+                    rec['cli_issue'] = 'the runner wrote a table although files are missing'
+                elif got != {k: list(v) for k, v in lk.items()}:
+                    rec['cli_issue'] = f'the runner wrote {str(got)[:150]}, the library call returned {str(dict(lk))[:150]}'
+            except RuntimeError as e:
+                if rec['ok']:
+                    rec['cli_issue'] = f'the runner refused: {str(e)[:150]}'
         # strings as small integers for TLC
         gid = {}
         def g2i(g):
@@ -161,6 +186,8 @@ def run(ctx):
         if rec is None:
             raise MachineryError(err)
         ctx.count({'case': c})
+        if (issue_ := rec.pop('cli_issue', '')):
+            ctx.report('cli:marker-cache', f'command-line runner and library call disagree: {issue_}', {'case': c})
         recs.append(rec)
     vs = validate(ctx, 'MarkerCsv_Trace', recs, 'MarkerCsv_Trace')
     rej = 0
